@@ -217,8 +217,14 @@ func marshalDocSections(secs []DocumentSection) []byte {
 
 func unmarshalDocSections(data []byte, ds []DocumentSection) []DocumentSection {
 	sz, m := binary.Uvarint(data)
+	if m <= 0 {
+		// truncated or overlong varint: corrupt data, nothing to decode.
+		return ds[:0]
+	}
 	data = data[m:]
 
+	// Every section takes at least two bytes, do not trust sz beyond that.
+	sz = min(sz, uint64(len(data)))
 	if cap(ds) < int(sz)/2 {
 		ds = make([]DocumentSection, 0, sz/2)
 	} else {
@@ -232,11 +238,17 @@ func unmarshalDocSections(data []byte, ds []DocumentSection) []DocumentSection {
 		var d DocumentSection
 
 		delta, m := binary.Uvarint(data)
+		if m <= 0 {
+			break // corrupt data
+		}
 		last += uint32(delta)
 		data = data[m:]
 		d.Start = last
 
 		delta, m = binary.Uvarint(data)
+		if m <= 0 {
+			break // corrupt data
+		}
 		last += uint32(delta)
 		data = data[m:]
 		d.End = last
@@ -279,8 +291,14 @@ func toSizedDeltas(offsets []uint32) []byte {
 
 func fromSizedDeltas(data []byte, ps []uint32) []uint32 {
 	sz, m := binary.Uvarint(data)
+	if m <= 0 {
+		// truncated or overlong varint: corrupt data, nothing to decode.
+		return ps[:0]
+	}
 	data = data[m:]
 
+	// Every delta takes at least one byte, do not trust sz beyond that.
+	sz = min(sz, uint64(len(data)))
 	if cap(ps) < int(sz) {
 		ps = make([]uint32, 0, sz)
 	} else {
@@ -290,6 +308,9 @@ func fromSizedDeltas(data []byte, ps []uint32) []uint32 {
 	var last uint32
 	for len(data) > 0 {
 		delta, m := binary.Uvarint(data)
+		if m <= 0 {
+			break // corrupt data
+		}
 		offset := last + uint32(delta)
 		last = offset
 		data = data[m:]
@@ -319,8 +340,14 @@ func toSizedDeltas16(offsets []uint16) []byte {
 
 func fromSizedDeltas16(data []byte, ps []uint16) []uint16 {
 	sz, m := binary.Uvarint(data)
+	if m <= 0 {
+		// truncated or overlong varint: corrupt data, nothing to decode.
+		return ps[:0]
+	}
 	data = data[m:]
 
+	// Every delta takes at least one byte, do not trust sz beyond that.
+	sz = min(sz, uint64(len(data)))
 	if cap(ps) < int(sz) {
 		ps = make([]uint16, 0, sz)
 	} else {
@@ -330,6 +357,9 @@ func fromSizedDeltas16(data []byte, ps []uint16) []uint16 {
 	var last uint16
 	for len(data) > 0 {
 		delta, m := binary.Uvarint(data)
+		if m <= 0 {
+			break // corrupt data
+		}
 		offset := last + uint16(delta)
 		last = offset
 		data = data[m:]
@@ -347,6 +377,9 @@ func fromDeltas(data []byte, buf []uint32) []uint32 {
 	var last uint32
 	for len(data) > 0 {
 		delta, m := binary.Uvarint(data)
+		if m <= 0 {
+			break // corrupt data
+		}
 		offset := last + uint32(delta)
 		last = offset
 		data = data[m:]
